@@ -557,12 +557,28 @@ class SWalker(G.Walker):
         self.expr(c0, ctrl)
         self.flush()
         txt = self.text(c0)
-        # local_mode tests select an arm deterministically
-        if self.lm_param and k == "BinaryOperator" and c0.get("opcode") in ("==", "!="):
-            a, b = [strip(x) for x in kids(c0)]
-            if a.get("kind") == "DeclRefExpr" and a["referencedDecl"]["name"] == self.lm_param and int_value(b) in (0, 1):
-                w_then = (int_value(b) == 1) == (c0["opcode"] == "==")
-                self.emit(S_iflm(T, E) if w_then else S_iflm(E, T))
+        # local_mode tests select an arm deterministically (also as one conjunct of the condition)
+        def lm_test(x):
+            """True: x is `local_mode == CG_MODE_WRITE`; False: `local_mode == CG_MODE_READ`; None: something else"""
+            x = strip(x)
+            if self.lm_param and x.get("kind") == "BinaryOperator" and x.get("opcode") in ("==", "!="):
+                a, b = [strip(y) for y in kids(x)]
+                if a.get("kind") == "DeclRefExpr" and a["referencedDecl"]["name"] == self.lm_param and int_value(b) in (0, 1):
+                    return (int_value(b) == 1) == (x["opcode"] == "==")
+            return None
+        if self.lm_param:
+            ch = and_chain(c0)
+            tests = [lm_test(x) for x in ch]
+            if any(t is not None for t in tests):
+                w = [t for t in tests if t is not None]
+                inner = T if len(ch) == len(w) else [S_if(T, E, txt[:60])]
+                if all(w):                   # every local_mode conjunct demands WRITE
+                    self.emit(S_iflm(inner, E))
+                elif not any(w):             # ... demands READ
+                    self.emit(S_iflm(E, inner))
+                else:                        # contradictory: the arm never runs
+                    for x in E:
+                        self.emit(x)
                 return
         # a test of a 0-initialised local that is only assigned under local_mode == CG_MODE_WRITE (parent_id ..), possibly
         # as one conjunct of the condition: the arm can only run when the caller passes CG_MODE_WRITE
@@ -596,6 +612,7 @@ class SWalker(G.Walker):
         self.emit(S_if(T, E, txt[:60]))
 
     def classify(self, cond, txt, negated=False):
+        txt = txt.replace("->", ".")                 # so that `[<>]` below only sees relational operators
         if "INVALID_ENUM" in txt:
             return "Enum"
         c0 = strip(cond)
@@ -620,14 +637,18 @@ class SWalker(G.Walker):
         if re.search(r"strlen|\[0\]\s*==\s*'\\0'|\[0\]\s*==\s*0|strcmp|strchr", txt) and used:
             return "Name"
         if used:
+            if direct and not (refs - set(self.ppos)) and not re.search(r"[<>=]", txt) and \
+                    all(self.ptype[p].strip() == "int" for p in direct):
+                return "State"                       # `if (!allow_dup)`: a switch passed by the caller, not a range test
             if direct and any(self.ptype[p].strip().endswith("*") for p in direct) and \
                     re.search(r"==\s*(NULL|0)\b|!\s*\w+\s*(\)|$|\|)", txt) and not re.search(r"[<>]", txt):
                 return "Null"
             if direct and any("enum" in self.ptype[p] or re.search(r"_t\b", self.ptype[p]) and "cgsize_t" not in self.ptype[p]
                               and "*" not in self.ptype[p] for p in direct) and not re.search(r"[<>]", txt):
                 return "Enum"
-            if not direct and re.search(r"NULL|alloc\s*\(|ierr|\bier\b", txt):
-                return "State"                       # allocation failures, statuses of back-end calls
+            if not direct and (re.search(r"NULL|alloc\s*\(|ierr|\bier\b", txt) or not re.search(r"[<>]", txt)):
+                return "State"                       # allocation failures, statuses of back-end calls, (in)equality /
+                                                     # truthiness tests of locals: consistency tests, not range tests
             return "Range"
         return "State"
 
@@ -866,6 +887,15 @@ class SWalker(G.Walker):
         for c in ks:
             self.expr(c, ctrl)
         self.flush()
+        # `if (v) cgi_error(..); return v;` : the message and the failing status are one decision
+        if e.get("kind") == "DeclRefExpr" and self.ret == "int" and self.out_stack[-1]:
+            prev = self.out_stack[-1][-1]
+            v = e["referencedDecl"]["name"]
+            if prev["s"] == "if" and not prev["e"] and prev["t"] and re.fullmatch(r"\(?\s*%s\s*(!=\s*0)?\s*\)?" % re.escape(v), prev.get("cond", "").strip()) and \
+                    all(x["s"] == "act" and x["a"]["k"] == "err" for x in prev["t"]):
+                self.out_stack[-1].pop()
+                self.emit(S_if(prev["t"] + [S_ret("Err", line, txt)], [S_ret("Ok", line, txt)], prev.get("cond", "")))
+                return
         r = self.ret_class(s)
         if r == "Call":
             r = "Var"
